@@ -68,12 +68,16 @@ class CCQR(QR):
 
         n, m = basis_matrix.shape  # We transpose basis_matrix below
 
+        # Default costs are not stored on the object: a later fit on data with a
+        # different number of sensors must not see a stale zero vector.
         if self.sensor_costs is None:
-            self.sensor_costs = np.zeros(n)
+            sensor_costs = np.zeros(n)
+        else:
+            sensor_costs = self.sensor_costs
 
-        if len(self.sensor_costs) != n:
+        if len(sensor_costs) != n:
             raise ValueError(
-                f"Dimension of sensor_costs ({len(self.sensor_costs)}) "
+                f"Dimension of sensor_costs ({len(sensor_costs)}) "
                 f"does not match number of sensors in data ({n})"
             )
 
@@ -86,7 +90,7 @@ class CCQR(QR):
         row = 0
 
         for j in range(k):
-            u, i_piv = qr_reflector(R[row:, j:], self.sensor_costs[p[j:]])
+            u, i_piv = qr_reflector(R[row:, j:], sensor_costs[p[j:]])
             # Track column pivots
             i_piv += j
             p[[j, i_piv]] = p[[i_piv, j]]
